@@ -1432,6 +1432,9 @@ class Memoer(Tymee):
                 raise hioing.MemoerError(f"Unsigned gram {code =} when signed "
                                          f"required.")
 
+            if code not in self.Sizes:  # unrecognized gram code so drop
+                raise hioing.MemoerError(f"Unrecognized gram {code =}.")
+
             bz, nz, mz, vz, az = self.Sizes[code]  # bz nz mz vz az
             # head encoced as b2 means bz head part sizes (bizes) are smaller by 3/4
             bz = 3 * bz // 4
@@ -1478,6 +1481,10 @@ class Memoer(Tymee):
             if self.authic and code not in self.Audex:  # must be signed
                 raise hioing.MemoerError(f"Unsigned gram {code =} when signed "
                                          f"required.")
+
+            if code not in self.Sizes:  # unrecognized gram code so drop
+                raise hioing.MemoerError(f"Unrecognized gram {code =}.")
+
             bz, nz, mz, vz, az = self.Sizes[code]  # bz nz mz vz az
             oz =  bz + nz + mz  + vz + az
 
